@@ -2,7 +2,9 @@
 import itertools
 from typing import Any
 
-from ..core import Composite
+import random
+
+from ..core import Composite, Prop
 from ..kernel_prop import KernelProp
 from .c08 import C08
 
@@ -132,14 +134,118 @@ class C13Tasks(C08):
         return any(l[0] == "taskEnded" and l[2] is not None for l in labels) and any(l[0] == "cleanupTick" for l in labels)
 
 
+class C13LeakInTeardown(Prop):
+    """A context that is left while a child context is still open is an error whenever the child was entered - also
+    during the parent's teardown (a teardown callback that opens a sub-context for its clean-up work and does not leave
+    it). Observed directly: in the kernel model callback bodies act on their own context only."""
+    id = "C13"
+    kinds = ("leak",)
+
+    def generate(self, rng: random.Random, tier: str, index: int) -> dict[str, Any]:
+        return {"kind": "leak", "backend": ("asyncio", "trio")[index % 2], "nested": rng.random() < 0.5,
+                "where": rng.choice(["body", "callback", "callback", "async_callback", "second_callback"]),
+                "leaks": rng.choice([1, 1, 2]), "block_fails": rng.random() < 0.3}
+
+    def exhaustive(self, tier: str):
+        return [{"kind": "leak", "backend": b, "nested": n, "where": w, "leaks": k, "block_fails": f, "origin": "leak"}
+                for b in ("asyncio", "trio") for n in (False, True)
+                for w in ("body", "callback", "async_callback", "second_callback") for k in (1, 2) for f in (False, True)]
+
+    def run_impl(self, case):
+        from asphalt.core import Context
+
+        from ..impl import vclock
+        from ..impl.kernel import EXN, leaves
+
+        async def main() -> dict[str, Any]:
+            kept: list[Any] = []
+            ran: list[str] = []
+
+            async def leak() -> None:
+                for _ in range(case["leaks"]):
+                    child = Context()
+                    await child.__aenter__()      # … and never left
+                    kept.append(child)
+
+            async def acb() -> None:
+                ran.append("acb")
+                await leak()
+
+            def first() -> None:
+                ran.append("first")
+
+            async def scenario() -> None:
+                async with Context() as parent:
+                    parent.add_teardown_callback(first)
+                    if case["where"] == "second_callback":
+                        parent.add_teardown_callback(lambda: None)
+                    if case["where"] in ("callback", "async_callback", "second_callback"):
+                        parent.add_teardown_callback(acb)
+                    if case["where"] == "body":
+                        await leak()
+                    if case["block_fails"]:
+                        raise EXN[0]()
+
+            out: list[str] = []
+            try:
+                if case["nested"]:
+                    async with Context():
+                        try:
+                            await scenario()
+                        except BaseException as e:  # noqa: BLE001
+                            out = [type(x).__name__ + ":" + str(x)[:40] for x in leaves(e)]
+                        for child in kept:      # (tidy up so that the outer context can be left)
+                            try:
+                                await child.__aexit__(None, None, None)
+                            except BaseException:  # noqa: BLE001
+                                pass
+                else:
+                    await scenario()
+            except BaseException as e:  # noqa: BLE001
+                out = out or [type(x).__name__ + ":" + str(x)[:40] for x in leaves(e)]
+            return {"raised": out, "ran": ran}
+
+        return vclock.run(main, backend=case["backend"])
+
+    def model_request(self, case, impl):
+        return None
+
+    def compare(self, case, impl, model):
+        return None
+
+    def monitor(self, case, impl):
+        if case["block_fails"] and not case["nested"]:
+            # a root context whose block ends with an exception re-raises it from its task group before the check is
+            # reached (the carve-out of C13_children_reported: `be = .ret ∨ x.parent ≠ none`): not judged
+            return []
+        if not any(r.startswith("RuntimeError:Context stack corruption") for r in impl["raised"]):
+            return [f"[C13] a context was left while {case['leaks']} child context(s) entered "
+                    f"{'in its block' if case['where'] == 'body' else 'by one of its teardown callbacks'} were still open and "
+                    f"nothing was reported: the caller saw {impl['raised']}"]
+        return []
+
+    def nontrivial(self, case, impl):
+        return case["where"] != "body"
+
+    def features(self, case, impl):
+        return ["leak:" + case["where"], "backend_" + case["backend"]]
+
+    def shrink(self, case):
+        if case["leaks"] > 1:
+            yield {**case, "leaks": 1}
+        if case["block_fails"]:
+            yield {**case, "block_fails": False}
+
+
 class C13(Composite):
     id = "C13"
     quick_cases = C13Kernel.quick_cases
     thorough_cases = C13Kernel.thorough_cases
-    parts = [(7, C13Kernel()), (1, C13Tasks())]
-    rule = C13Kernel.rule + ("; one case in eight is a service-task program (as in C08) with frequent task crashes: tasks "
-                             "that are still cleaning up while the root context waits for them inside its exit look "
-                             "resources up in it")
+    parts = [(14, C13Kernel()), (2, C13Tasks()), (1, C13LeakInTeardown())]
+    rule = C13Kernel.rule + ("; two cases in seventeen are service-task programs (as in C08) with frequent task crashes: "
+                             "tasks that are still cleaning up while the root context waits for them inside its exit look "
+                             "resources up in it; one in seventeen leaves a root or nested context whose block or whose "
+                             "teardown callbacks entered 1-2 child contexts and did not leave them")
     assumptions = C13Kernel.assumptions
 
 
